@@ -88,6 +88,17 @@ def cases(tier, inst):
             yield ("attr_operand", c, op, "left")  # sub.p <op> y.p
             yield ("attr_operand", c, op, "right")
         yield ("pform_arg", c)
+    # --- a sub-query operand whose variable is ALREADY BOUND when the comparison runs (right of an & / | whose left
+    #     side binds it, either a plain condition or another sub-query), and the reverse order
+    lefts = [("cmp", "le", A(X, "q"), L(2)), ("cmp", "ne", A(X, "p"), L(1)), ("sq", sub_q(("cmp", "ge", A(X, "q"), L(1))))]
+    for c in xonly:
+        for left in lefts:
+            for conn in ("and", "or"):
+                for order in ("left_first", "operand_first"):
+                    for pos in ("operand", "attr_operand", "pform_arg"):
+                        if pos == "pform_arg" and conn == "or":
+                            continue
+                        yield ("bound_operand", c, left, conn, order, pos)
     for k in (3, 1):                                # the(...) with a unique solution (p == 3) / (q == 3 -> p==2,q==3)
         for op in ("eq", "ne"):
             yield ("the_operand", k, op)
@@ -146,6 +157,24 @@ def queries_of(case):
         n = ("Q", "an", "entity", ("pform", "Item", "DB", (), (("ref", ("sub", sub_q(c))),)), (), (VXY[0],))
         f = ("Q", "an", "entity", Y, (("cmp", "eq", A(Y, "ref"), X),) + ((c,) if c else ()), vxy_decl)
         return n, f, RICH
+    if fam == "bound_operand":
+        _, c, left, conn, order, pos = case
+        s = ("sub", sub_q(c))
+        flat_left = ("and",) + tuple(left[1][4]) if left[0] == "sq" and len(left[1][4]) > 1 else (left[1][4][0] if left[0] == "sq" else left)
+        if pos == "pform_arg":
+            # Item(From(DB), ref=sub) selected, conjoined with a condition on the sub-query's variable
+            term = ("bound", "y", ("pform", "Item", "DB", (), (("ref", s),)))
+            conds = (left,)
+            n = ("Q", "an", "entity", term, conds, (VXY[0],))
+            f = ("Q", "an", "entity", Y, (("cmp", "eq", A(Y, "ref"), X), c, flat_left), vxy_decl)
+            return n, f, RICH
+        cmp_n = ("cmp", "eq", A(Y, "ref"), s) if pos == "operand" else ("cmp", "ge", A(Y, "p"), A(s, "p"))
+        cmp_f = ("and", ("cmp", "eq", A(Y, "ref"), X) if pos == "operand" else ("cmp", "ge", A(Y, "p"), A(X, "p")), c)
+        pair_n = (left, cmp_n) if order == "left_first" else (cmp_n, left)
+        pair_f = (flat_left, cmp_f) if order == "left_first" else (cmp_f, flat_left)
+        n = ("Q", "an", "setof", (X, Y), ((conn,) + pair_n,), vxy_decl)
+        f = ("Q", "an", "setof", (X, Y), ((conn,) + pair_f,), vxy_decl)
+        return n, f, RICH
     thec = {3: ("cmp", "eq", A(X, "p"), L(3)), 1: ("cmp", "eq", A(X, "q"), L(3))}
     if fam in ("the_operand", "the_attr"):
         _, k, op = case
@@ -187,20 +216,40 @@ def run_case(case, inst):
         total = 1
         for v in f[5]:
             total *= len(ref.domain(v))
-        return got, flat, exp, total
+        restricted = None
+        if case[0] == "bound_operand":
+            # alternative semantics of the recorded finding: the sub-query operand restricts its variable for the whole
+            # disjunction, not only for the comparison it is an operand of
+            restricted = [tuple(ref.value(s, env) for s in sel) for env in sols if ref.holds(case[1], env)]
+        return got, flat, exp, total, restricted
 
-    got, flat, exp, total = run_isolated(body)
+    got, flat, exp, total, restricted = run_isolated(body)
     nset = len({tuple(Q.norm(v) for v in r) for r in exp})
     res = {"ok": True, "nontrivial": 0 < len(exp) < total, "transitions": 2, "tags": [f"family={case[0]}"],
            "outcome": f"{case[0]}:{nset}"}
     d = diff_rows(got, exp, count=False)
     if d is not None:
         res.update(ok=False, sig=f"{case[0]}:{d}", obs=row_labels(got), exp=row_labels(exp))
+        if restricted is not None:
+            res["kf_hint"] = {"equals_restricted_reading": diff_rows(got, restricted, count=False) is None}
     else:
         d2 = diff_rows(flat, exp, count=False)
         if d2 is not None:
             res.update(ok=False, sig=f"{case[0]}:flattened-form-{d2}", obs=("flattened", row_labels(flat)), exp=row_labels(exp))
     return res
+
+
+# ---------------------------------------------------------------- known-finding hooks (see eqlmc/kf.py)
+def _scope_or_operand_first(case, inst):
+    return case[0] == "bound_operand" and case[3] == "or" and case[4] == "operand_first"
+
+
+def _model_restricts_whole_disjunction(case, inst, sig, obs, hint):
+    return sig == "bound_operand:missing" and bool(hint) and hint.get("equals_restricted_reading") is True
+
+
+KF_SCOPES = {"subquery_operand_is_left_disjunct": _scope_or_operand_first}
+KF_MODELS = {"operand_restricts_whole_disjunction": _model_restricts_whole_disjunction}
 
 
 def describe(case, inst):
